@@ -338,6 +338,23 @@ fn mk_system_time(before: bool, secs: u64, nanos: u32) -> Option<SystemTime> {
     }
 }
 
+/// the comparison operators and the provided methods of PartialOrd / Ord / PartialEq must all
+/// say what `cmp` says (an impl may override any of them); a failure is a panic, i.e. a mismatch
+fn ops_agree<T: Ord + Copy + std::fmt::Debug>(x: T, y: T) {
+    use std::cmp::Ordering::*;
+    let o = x.cmp(&y);
+    assert_eq!(x.partial_cmp(&y), Some(o));
+    assert_eq!(x < y, o == Less, "lt");
+    assert_eq!(x <= y, o != Greater, "le");
+    assert_eq!(x > y, o == Greater, "gt");
+    assert_eq!(x >= y, o != Less, "ge");
+    assert_eq!(x != y, !(x == y), "ne");
+    assert_eq!(y.cmp(&x), o.reverse(), "antisymmetry");
+    assert!(x.max(y) == if o == Greater { x } else { y }, "max");
+    assert!(x.min(y) == if o == Greater { y } else { x }, "min");
+    assert!(x.clamp(x.min(y), x.max(y)) == x, "clamp");
+}
+
 fn hist_step(d: &Date, op: &str) -> Result<Date, String> {
     let c = d.calendar();
     match op {
@@ -670,13 +687,13 @@ fn answer_lib(line: &str) -> String {
             let j2: i32 = p!(j2.parse().ok());
             let d1 = a.at_jdn(j1);
             let d2 = b.at_jdn(j2);
-            assert_eq!(d1.partial_cmp(&d2), Some(d1.cmp(&d2)));
+            ops_agree(d1, d2);
             format!("{} {} {}", show_ord(d1.cmp(&d2)), b01(d1 == d2), b01(hash_of(&d1) == hash_of(&d2)))
         }
         ["cmp_cal", c1, c2] => {
             let a = cal!(c1);
             let b = cal!(c2);
-            assert_eq!(a.partial_cmp(&b), Some(a.cmp(&b)));
+            ops_agree(a, b);
             format!("{} {} {}", show_ord(a.cmp(&b)), b01(a == b), b01(hash_of(&a) == hash_of(&b)))
         }
         ["convert", c1, j, c2] => {
@@ -783,6 +800,8 @@ fn answer_lib(line: &str) -> String {
                             'c' => format!("c{}", it.clone().count()),
                             'z' => show_opt(it.clone().last()),
                             'r' => show_opt(it.clone().rev().last()),
+                            'x' => show_opt(it.clone().max()),
+                            'w' => show_opt(it.clone().min()),
                             _ => {
                                 assert_eq!(it.size_hint(), (it.len(), Some(it.len())));
                                 format!("l{}", it.len())
@@ -813,6 +832,8 @@ fn answer_lib(line: &str) -> String {
                             'c' => format!("c{}", it.clone().count()),
                             'z' => show_opt_date(&it.clone().last()),
                             'r' => show_opt_date(&it.clone().rev().last()),
+                            'x' => show_opt_date(&it.clone().max()),
+                            'w' => show_opt_date(&it.clone().min()),
                             _ => {
                                 assert_eq!(it.size_hint(), (it.len(), Some(it.len())));
                                 format!("l{}", it.len())
@@ -837,6 +858,8 @@ fn answer_lib(line: &str) -> String {
                     'c' => format!("c{}", it.clone().count()),
                     'z' => show_opt(it.clone().last().map(|m| m.number())),
                     'r' => show_opt(it.clone().rev().last().map(|m| m.number())),
+                    'x' => show_opt(it.clone().max().map(|m| m.number())),
+                    'w' => show_opt(it.clone().min().map(|m| m.number())),
                     _ => {
                         assert_eq!(it.size_hint(), (it.len(), Some(it.len())));
                         format!("l{}", it.len())
@@ -879,7 +902,7 @@ fn answer_lib(line: &str) -> String {
             };
             let x = fin(a.at_jdn(j1), ops1);
             let y = fin(b.at_jdn(j2), ops2);
-            assert_eq!(x.partial_cmp(&y), Some(x.cmp(&y)));
+            ops_agree(x, y);
             format!(
                 "{} {} {} {} {} {} {} {}",
                 show_ord(x.cmp(&y)),
